@@ -18,6 +18,10 @@ GRAPHS = {
     "diamond": {"classes": {1: NT.G2D1, 2: NT.G2D2, 3: NT.G2D3},
                 "fields": {1: [(0, False), (2, False), (3, False), (0, False)], 2: [(0, False), (3, False)], 3: [(0, False)]}},
 }
+# graphs with TypedDicts / NamedTuples / dataclasses: no model (the model's generator is the attrs one); the oracle -- a forced
+# schedule never fails where the sequential run does not -- applies to every kind
+GRAPHS["mixed_chain"] = {"classes": {1: NT.G3D1, 2: NT.G3N2, 3: NT.G3T3}, "fields": None}
+GRAPHS["mixed_cycle"] = {"classes": {1: NT.G4A1, 2: NT.G4T2, 3: NT.G4A1}, "fields": None}
 PATCH_MODULES = ["cattrs.gen._consts", "cattrs.gen", "cattrs.gen.typeddicts", "cattrs.cols", "cattrs.strategies._subclasses"]
 
 
@@ -133,10 +137,14 @@ def check_c19(v: Verdict, t1_summary, n_sched, stress_rounds):
         hist[f"threads_{nthreads}"] += 1
         reqs = [[rng.choice([1, 2, 3]) for _ in range(rng.randint(1, 2))] for _ in range(nthreads)]
         sched = [rng.randrange(nthreads) for _ in range(rng.randint(4, 14))]
-        direction = rng.choice(["DSt", "DSt", "DUn"])
+        direction = rng.choice(["DSt", "DSt", "DUn"]) if graph["fields"] is not None else rng.choice(["DSt", "DUn"])
+        if graph["fields"] is None and rng.random() < 0.5:
+            # two threads asking for the same class first: the classic concurrent first use
+            c0 = rng.choice([1, 2, 3])
+            reqs = [[c0] + r for r in reqs]
         hist["directions"][direction] += 1
         for shared in (False, True):
-            if shared and direction == "DUn":
+            if shared and (direction == "DUn" or graph["fields"] is None):
                 continue
             obs, errs = run_schedule(graph, reqs, sched, direction, shared)
             scope_tl = tl if not shared else False
@@ -146,7 +154,7 @@ def check_c19(v: Verdict, t1_summary, n_sched, stress_rounds):
             desc = {"graph": gname, "requests": reqs, "schedule": sched, "direction": direction,
                     "working_set": "shared (what-if: module attribute rebound by the harness)" if shared else "as in the source",
                     "observed": obs, "errors": errs}
-            if direction == "DSt":
+            if direction == "DSt" and graph["fields"] is not None:
                 cases.append("obs_eqb (observe (mrun %s %s (init %s) %s)) %s" % (
                     coq_fields(graph), "true" if scope_tl else "false",
                     "[" + "; ".join("[" + "; ".join(f"{c}%N" for c in r) + "]" for r in reqs) + "]",
@@ -161,6 +169,21 @@ def check_c19(v: Verdict, t1_summary, n_sched, stress_rounds):
                                 {"lane": "THR/C19", **desc})
         if len(v.samples) < 3:
             v.samples.append({"graph": gname, "requests": reqs, "schedule": sched, "direction": direction})
+    # systematic: for every graph, class and direction, thread 0 is parked at each marker of the class's generation in turn while
+    # thread 1 uses the same class from start to end (concurrent first use of one class), then thread 0 finishes
+    for gname, graph in GRAPHS.items():
+        for c in (1, 2, 3):
+            for direction in ("DSt", "DUn"):
+                for parked_after in (1, 2, 3):
+                    reqs = [[c], [c]]
+                    sched = [0] * parked_after + [1] * 8 + [0] * 8
+                    obs, errs = run_schedule(graph, reqs, sched, direction, False)
+                    hist["systematic_first_use"] = hist.get("systematic_first_use", 0) + 1
+                    v.count(repr((gname, reqs, sched, direction, "systematic")), True)
+                    if any(f for f, _ in obs):
+                        v.violation("a thread raised an error under a forced schedule that the sequential execution does not raise",
+                                    {"lane": "THR/C19", "graph": gname, "requests": reqs, "schedule": sched, "direction": direction,
+                                     "working_set": "as in the source", "observed": obs, "errors": errs})
     # ---- free-running stress: many threads first-using overlapping class graphs on one converter
     import attrs as _attrs
     for r in range(stress_rounds):
